@@ -12,10 +12,34 @@
     - visibility: declared fields keep their visibility (the region records it; [region_field]
       prints [r_vis]); regions the resolver generates (padding) are private and undocumented; the own
       vftable pointer region and placeholder slots are private.
+    ON THE EMITTED TEXT, IN TERMS OF THE DECLARATION (EmitMarkers*.v), for every declared item of an
+    accepted collision-free build, read back from the module's file by readers that only look at
+    tokens:
+    - [C17_emitted_type]: the struct is public iff declared pub; its derive list is exactly
+      Copy+Clone if copyable, Clone if cloneable, plus Default iff defaultable; it is
+      [repr(C, packed)] iff packed, else [repr(C, align(N))]; its doc lines are the declared ones in
+      order; and it carries no other attribute (the count is stated);
+    - [C17_emitted_fields]: every emitted field is either generated (private, undocumented, named
+      [vftable] or [_field_<hex>]) or the counterpart of a declared statement, with the declared
+      visibility and doc lines; every declared named non-array field has its counterpart;
+    - [C17_emitted_enum]: the same for enums (fixed derives + markers; variants carry no doc);
+    - [C17_emitted_impl_functions], [C17_emitted_vftable_slots] (placeholders private and
+      undocumented, declared slots with the declared name/visibility/docs),
+      [C17_emitted_inherited_wrappers] (a forwarded copy has the visibility and docs of the function
+      it forwards to), [C17_emitted_wrappers_origin] (at any depth of inheritance every wrapper's
+      visibility and docs are those of a function DECLARED in some impl or vftable block);
+    - "and on no other item": [C17_no_doc_on_type_helpers], [C17_no_doc_on_enum_helpers] (size
+      check, singleton impl, accessor, conversions carry no doc -- a conflict const only its
+      explanatory text), [C17_emitted_module_docs] (module docs; extern accessors undocumented).
+    Observations recorded while proving (none contradicts the property as worded): a field named
+    [_] loses its declared [pub] and doc (it becomes a private padding field); docs written on enum
+    variants, extern values and impl blocks are not emitted; [vftable()] is always pub.
     The correspondence compares vis / derive / repr / doc of every emitted node with the real output. *)
 From Coq Require Import List NArith ZArith Bool String.
 From PyxisModel Require Import Base Sexp Grammar SemTypes Registry Sem SemLemmas PlacementLemmas Emit EmitLemmas WholeBuild WholeBuildMore.
 Import ListNotations.
+
+From PyxisModel Require EmitMarkers EmitMarkersEnum EmitMarkersFn EmitMarkersNoDoc EmitMarkersOrigin.
 
 Theorem C17_markers : forall attrs ta,
   foldM scan_type_attr attrs ta_init = Ok ta ->
@@ -99,3 +123,368 @@ Theorem C17_whole_build_enum_markers : forall order ptr mods st0 st p it0 gd ed0
 Proof. exact WholeBuildMore.C17_whole_build_enum_markers. Qed.
 Print Assumptions C17_whole_build_enum_markers.
 
+Theorem C17_emitted_type :
+  forall (order : schedule) (ptr : N) (mods : list (path * gmodule)) (st0 st : sstate)
+      (files : list (string * sexp)) (p : path) (it0 : item) (gd : gitemdef) 
+      (td0 : gtypedef),
+    input_state ptr mods = Ok st0 ->
+    NoDup (map fst mods) ->
+    collision_free (st_reg st0) ->
+    EmitFinal.keeps_work order ->
+    pyxis_resolve order ptr mods = BOk st ->
+    write_all st = Ok files ->
+    reg_get (st_reg st0) p = Some it0 ->
+    it_state it0 = Unresolved gd ->
+    gi_inner gd = GIType td0 ->
+    path_parent p <> Some [] ->
+    exists
+      (parent : path) (name : string) (f : sexp) (items : list sexp) (s : sexp) 
+    (it : item) (r : resolved) (al : list sexp) (docs : list string),
+      path_parent p = Some parent /\
+      path_last p = Some name /\
+      In (out_path parent, f) files /\
+      EmitReaders.file_items f = Some items /\
+      EmitReaders.find_struct name items = Some s /\
+      reg_get (st_reg st) p = Some it /\
+      it_state it = Resolved r /\
+      EmitReaders.struct_vis s = Some (gi_vis gd) /\
+      EmitReaders.struct_derives s = Some (EmitMarkers.declared_derives (gt_attrs td0)) /\
+      EmitReaders.struct_repr s =
+      Some
+        (if has_marker "packed" (gt_attrs td0)
+         then EmitReaders.ReprPacked
+         else EmitReaders.ReprAlign (rs_align r)) /\
+      EmitReaders.struct_docs s = Some docs /\
+      EmitMarkers.docs_as_declared (gt_attrs td0) docs /\
+      EmitMarkers.struct_attrs s = Some al /\
+      Datatypes.length al =
+      match EmitMarkers.declared_derives (gt_attrs td0) with
+      | [] => 0
+      | _ :: _ => 1
+      end + 1 + Datatypes.length docs.
+Proof. exact EmitMarkers.C17_emitted_type. Qed.
+Print Assumptions C17_emitted_type.
+
+Theorem C17_emitted_fields :
+  forall (order : schedule) (ptr : N) (mods : list (path * gmodule)) (st0 st : sstate)
+      (files : list (string * sexp)) (p : path) (it0 : item) (gd : gitemdef) 
+      (td0 : gtypedef),
+    input_state ptr mods = Ok st0 ->
+    NoDup (map fst mods) ->
+    collision_free (st_reg st0) ->
+    EmitFinal.keeps_work order ->
+    pyxis_resolve order ptr mods = BOk st ->
+    write_all st = Ok files ->
+    reg_get (st_reg st0) p = Some it0 ->
+    it_state it0 = Unresolved gd ->
+    gi_inner gd = GIType td0 ->
+    path_parent p <> Some [] ->
+    exists
+      (parent : path) (name : string) (f : sexp) (items : list sexp) (s : sexp) 
+    (efs : list EmitReaders.efield),
+      path_parent p = Some parent /\
+      path_last p = Some name /\
+      In (out_path parent, f) files /\
+      EmitReaders.file_items f = Some items /\
+      EmitReaders.find_struct name items = Some s /\
+      EmitReaders.struct_fields s = Some efs /\
+      Forall
+        (fun ef : EmitReaders.efield =>
+         EmitMarkers.ef_generated ef \/
+         (exists stm : gstatement, In stm (gt_stmts td0) /\ EmitMarkers.ef_declared stm ef)) efs /\
+      (forall (stm : gstatement) (v : vis) (nm : string) (t : gtype),
+       In stm (gt_stmts td0) ->
+       gs_field stm = GField v nm t ->
+       nm <> "_"%string ->
+       EmitMarkers.gtype_not_array t = true ->
+       exists ef : EmitReaders.efield,
+         In ef efs /\
+         EmitReaders.ef_name ef = nm /\
+         EmitReaders.ef_vis ef = v /\
+         EmitMarkers.docs_as_declared (gs_attrs stm) (EmitReaders.ef_docs ef)).
+Proof. exact EmitMarkers.C17_emitted_fields_each. Qed.
+Print Assumptions C17_emitted_fields.
+
+Theorem C17_emitted_enum :
+  forall (order : schedule) (ptr : N) (mods : list (path * gmodule)) (st0 st : sstate)
+      (files : list (string * sexp)) (p : path) (it0 : item) (gd : gitemdef) 
+      (ed0 : genumdef),
+    input_state ptr mods = Ok st0 ->
+    NoDup (map fst mods) ->
+    collision_free (st_reg st0) ->
+    EmitFinal.keeps_work order ->
+    pyxis_resolve order ptr mods = BOk st ->
+    write_all st = Ok files ->
+    reg_get (st_reg st0) p = Some it0 ->
+    it_state it0 = Unresolved gd ->
+    gi_inner gd = GIEnum ed0 ->
+    path_parent p <> Some [] ->
+    exists
+      (parent : path) (name : string) (f : sexp) (items : list sexp) (e : sexp) 
+    (al : list sexp) (docs : list string) (vdocs : list (list string)),
+      path_parent p = Some parent /\
+      path_last p = Some name /\
+      In (out_path parent, f) files /\
+      EmitReaders.file_items f = Some items /\
+      EmitMarkersEnum.find_enum name items = Some e /\
+      EmitReaders.enum_vis e = Some (gi_vis gd) /\
+      EmitReaders.enum_derives e =
+      Some (EmitShape.enum_base_derives ++ EmitMarkers.declared_derives (ged_attrs ed0)) /\
+      EmitReaders.enum_docs e = Some docs /\
+      EmitMarkers.docs_as_declared (ged_attrs ed0) docs /\
+      EmitMarkers.enum_attrs e = Some al /\
+      Datatypes.length al = 2 + Datatypes.length docs /\
+      EmitMarkersEnum.enum_variant_docs e = Some vdocs /\
+      Datatypes.length vdocs = Datatypes.length (ged_stmts ed0) /\
+      Forall (fun d : list string => d = []) vdocs.
+Proof. exact EmitMarkersEnum.C17_emitted_enum. Qed.
+Print Assumptions C17_emitted_enum.
+
+Theorem C17_emitted_impl_functions :
+  forall (order : schedule) (ptr : N) (mods : list (path * gmodule)) (st0 st : sstate)
+      (files : list (string * sexp)) (p : path) (it0 : item) (gd : gitemdef) 
+      (td0 : gtypedef) (parent : path) (module0 : smodule) (blk : gfnblock),
+    input_state ptr mods = Ok st0 ->
+    NoDup (map fst mods) ->
+    collision_free (st_reg st0) ->
+    EmitFinal.keeps_work order ->
+    pyxis_resolve order ptr mods = BOk st ->
+    write_all st = Ok files ->
+    reg_get (st_reg st0) p = Some it0 ->
+    it_state it0 = Unresolved gd ->
+    gi_inner gd = GIType td0 ->
+    path_parent p = Some parent ->
+    parent <> [] ->
+    alookup parent (st_modules st0) = Some module0 ->
+    alookup p (m_impls module0) = Some blk ->
+    exists (name : string) (f : sexp) (items : list sexp) (s im : sexp) (fns : list sexp),
+      path_last p = Some name /\
+      In (out_path parent, f) files /\
+      EmitReaders.file_items f = Some items /\
+      EmitReaders.find_struct name items = Some s /\
+      In im items /\
+      EmitFnReaders.inherent_impl im = Some (name, fns) /\
+      Forall
+        (fun gf : gfunction =>
+         starts_with "_" (gf_name gf) = false ->
+         exists e : sexp, In e fns /\ EmitMarkersFn.fn_declared gf e) (gb_fns blk).
+Proof. exact EmitMarkersFn.C17_emitted_impl_functions. Qed.
+Print Assumptions C17_emitted_impl_functions.
+
+Theorem C17_emitted_vftable_slots :
+  forall (order : schedule) (ptr : N) (mods : list (path * gmodule)) (st0 st : sstate)
+      (files : list (string * sexp)) (p : path) (it0 : item) (gd : gitemdef) 
+      (td0 : gtypedef) (it : item) (r : resolved) (parent : path) (stm : gstatement)
+      (rest : list gstatement) (gfs : list gfunction),
+    input_state ptr mods = Ok st0 ->
+    collision_free (st_reg st0) ->
+    pyxis_resolve order ptr mods = BOk st ->
+    write_all st = Ok files ->
+    reg_get (st_reg st0) p = Some it0 ->
+    it_state it0 = Unresolved gd ->
+    gi_inner gd = GIType td0 ->
+    reg_get (st_reg st) p = Some it ->
+    it_state it = Resolved r ->
+    path_parent p = Some parent ->
+    parent <> [] ->
+    alookup parent (st_modules st0) <> None ->
+    gt_stmts td0 = stm :: rest ->
+    gs_field stm = GVftable gfs ->
+    exists (tname : string) (f : sexp) (items : list sexp) (s : sexp) (efs : list EmitReaders.efield),
+      path_last p = Some tname /\
+      In (out_path parent, f) files /\
+      EmitReaders.file_items f = Some items /\
+      EmitReaders.find_struct (tname +++ "Vftable") items = Some s /\
+      EmitReaders.struct_vis s = Some (gi_vis gd) /\
+      EmitReaders.struct_derives s = Some [] /\
+      EmitReaders.struct_docs s = Some [] /\
+      (exists a : sexp, EmitMarkers.struct_attrs s = Some [a]) /\
+      EmitReaders.struct_fields s = Some efs /\
+      EmitMarkers.interleave EmitMarkersFn.slot_placeholder (fun _ : gfunction => False)
+        EmitMarkersFn.slot_declared gfs efs.
+Proof. exact EmitMarkersFn.C17_emitted_vftable_slots. Qed.
+Print Assumptions C17_emitted_vftable_slots.
+
+Theorem C17_emitted_inherited_wrappers :
+  forall (order : schedule) (ptr : N) (mods : list (path * gmodule)) (st0 st : sstate)
+      (files : list (string * sexp)) (p : path) (it0 : item) (gd : gitemdef) 
+      (td0 : gtypedef),
+    input_state ptr mods = Ok st0 ->
+    NoDup (map fst mods) ->
+    collision_free (st_reg st0) ->
+    EmitFinal.keeps_work order ->
+    pyxis_resolve order ptr mods = BOk st ->
+    write_all st = Ok files ->
+    reg_get (st_reg st0) p = Some it0 ->
+    it_state it0 = Unresolved gd ->
+    gi_inner gd = GIType td0 ->
+    path_parent p <> Some [] ->
+    exists
+      (parent : path) (name : string) (it : item) (r : resolved) (td : type_def) 
+    (f : sexp) (items : list sexp) (s im : sexp) (fns : list sexp) (contribs : 
+                                                                    list (string * list sfunction)) 
+    (news : list (list sfunction)) (own : list sfunction),
+      path_parent p = Some parent /\
+      path_last p = Some name /\
+      reg_get (st_reg st) p = Some it /\
+      it_state it = Resolved r /\
+      rs_inner r = IType td /\
+      In (out_path parent, f) files /\
+      EmitReaders.file_items f = Some items /\
+      EmitReaders.find_struct name items = Some s /\
+      In im items /\
+      EmitFnReaders.inherent_impl im = Some (name, fns) /\
+      Forall
+        (fun sf : sfunction =>
+         sf_is_internal sf = false ->
+         exists e : sexp,
+           In e fns /\
+           EmitFnReaders.fn_name e = Some (sf_name sf) /\
+           EmitFnReaders.fn_vis e = Some (sf_vis sf) /\
+           EmitFnReaders.fn_docs e = Some (doc_lines (sf_doc sf))) (td_assoc td) /\
+      InheritLemmas.base_contributions (st_reg st) (filter r_is_base (td_regions td)) 0 = Ok contribs /\
+      td_assoc td = List.concat news ++ own /\
+      Forall2
+        (fun (c : string * list sfunction) (new : list sfunction) =>
+         Forall2
+           (fun g f' : sfunction =>
+            InheritLemmas.forwards (fst c) g f' /\
+            (sf_is_internal f' = false ->
+             exists e : sexp,
+               In e fns /\
+               EmitFnReaders.fn_name e = Some (sf_name f') /\ EmitMarkersFn.fn_forwards (fst c) g e))
+           (snd c) new) contribs news.
+Proof. exact EmitMarkersFn.C17_emitted_inherited_wrappers. Qed.
+Print Assumptions C17_emitted_inherited_wrappers.
+
+Theorem C17_emitted_wrappers_origin :
+  forall (order : schedule) (ptr : N) (mods : list (path * gmodule)) (st0 st : sstate)
+      (files : list (string * sexp)) (p : path) (it0 : item) (gd : gitemdef) 
+      (td0 : gtypedef),
+    input_state ptr mods = Ok st0 ->
+    NoDup (map fst mods) ->
+    collision_free (st_reg st0) ->
+    EmitFinal.keeps_work order ->
+    pyxis_resolve order ptr mods = BOk st ->
+    write_all st = Ok files ->
+    reg_get (st_reg st0) p = Some it0 ->
+    it_state it0 = Unresolved gd ->
+    gi_inner gd = GIType td0 ->
+    path_parent p <> Some [] ->
+    exists
+      (parent : path) (name : string) (f : sexp) (items : list sexp) (s im : sexp) 
+    (acc wrappers : list sexp),
+      path_parent p = Some parent /\
+      path_last p = Some name /\
+      In (out_path parent, f) files /\
+      EmitReaders.file_items f = Some items /\
+      EmitReaders.find_struct name items = Some s /\
+      In im items /\
+      EmitFnReaders.inherent_impl im = Some (name, acc ++ wrappers) /\
+      Forall
+        (fun a : sexp =>
+         EmitFnReaders.fn_name a = Some "vftable"%string /\
+         EmitFnReaders.fn_vis a = Some Public /\ EmitFnReaders.fn_docs a = Some []) acc /\
+      Datatypes.length acc <= 1 /\ Forall (EmitMarkersOrigin.fn_from_declaration st0) wrappers.
+Proof. exact EmitMarkersOrigin.C17_emitted_wrappers_origin. Qed.
+Print Assumptions C17_emitted_wrappers_origin.
+
+Theorem C17_no_doc_on_type_helpers :
+  forall (order : schedule) (ptr : N) (mods : list (path * gmodule)) (st0 st : sstate)
+      (files : list (string * sexp)) (p : path) (it0 : item) (gd : gitemdef) 
+      (td0 : gtypedef),
+    input_state ptr mods = Ok st0 ->
+    NoDup (map fst mods) ->
+    collision_free (st_reg st0) ->
+    EmitFinal.keeps_work order ->
+    pyxis_resolve order ptr mods = BOk st ->
+    write_all st = Ok files ->
+    reg_get (st_reg st0) p = Some it0 ->
+    it_state it0 = Unresolved gd ->
+    gi_inner gd = GIType td0 ->
+    path_parent p <> Some [] ->
+    exists
+      (parent : path) (name : string) (it : item) (r : resolved) (td : type_def) 
+    (f : sexp) (pre : list sexp) (s : sexp) (checks sing : list sexp) (im : sexp) 
+    (conv post acc wrappers : list sexp),
+      path_parent p = Some parent /\
+      path_last p = Some name /\
+      reg_get (st_reg st) p = Some it /\
+      it_state it = Resolved r /\
+      rs_inner r = IType td /\
+      In (out_path parent, f) files /\
+      EmitReaders.file_items f = Some (pre ++ (s :: checks ++ sing ++ im :: conv) ++ post) /\
+      EmitReaders.find_struct name (pre ++ (s :: checks ++ sing ++ im :: conv) ++ post) = Some s /\
+      (exists docs : list string,
+         EmitMarkersNoDoc.item_docs s = Some docs /\ EmitMarkers.docs_as_declared (gt_attrs td0) docs) /\
+      Forall EmitMarkersNoDoc.undocumented checks /\
+      Forall EmitMarkersNoDoc.undocumented sing /\
+      EmitMarkersNoDoc.item_docs im = Some [] /\
+      EmitMarkersNoDoc.inner_items im = Some (acc ++ wrappers) /\
+      Forall (fun a : sexp => EmitMarkersNoDoc.item_docs a = Some []) acc /\
+      Forall2 EmitFnShape.wrapper_shape
+        (EmitFnShape.emitted_fns (td_assoc td) ++
+         match td_vftable td with
+         | Some vt => EmitFnShape.emitted_fns (vt_functions vt)
+         | None => []
+         end) wrappers /\
+      Forall
+        (fun e : sexp => EmitMarkersNoDoc.undocumented e \/ EmitMarkersNoDoc.conflict_documented name e)
+        conv.
+Proof. exact EmitMarkersNoDoc.C17_no_doc_on_type_helpers. Qed.
+Print Assumptions C17_no_doc_on_type_helpers.
+
+Theorem C17_no_doc_on_enum_helpers :
+  forall (order : schedule) (ptr : N) (mods : list (path * gmodule)) (st0 st : sstate)
+      (files : list (string * sexp)) (p : path) (it0 : item) (gd : gitemdef) 
+      (ed0 : genumdef),
+    input_state ptr mods = Ok st0 ->
+    NoDup (map fst mods) ->
+    collision_free (st_reg st0) ->
+    EmitFinal.keeps_work order ->
+    pyxis_resolve order ptr mods = BOk st ->
+    write_all st = Ok files ->
+    reg_get (st_reg st0) p = Some it0 ->
+    it_state it0 = Unresolved gd ->
+    gi_inner gd = GIEnum ed0 ->
+    path_parent p <> Some [] ->
+    exists
+      (parent : path) (name : string) (f : sexp) (pre : list sexp) (e : sexp) 
+    (rest post : list sexp),
+      path_parent p = Some parent /\
+      path_last p = Some name /\
+      In (out_path parent, f) files /\
+      EmitReaders.file_items f = Some (pre ++ (e :: rest) ++ post) /\
+      EmitMarkersEnum.find_enum name (pre ++ (e :: rest) ++ post) = Some e /\
+      (exists docs : list string,
+         EmitMarkersNoDoc.item_docs e = Some docs /\ EmitMarkers.docs_as_declared (ged_attrs ed0) docs) /\
+      Forall EmitMarkersNoDoc.undocumented rest.
+Proof. exact EmitMarkersNoDoc.C17_no_doc_on_enum_helpers. Qed.
+Print Assumptions C17_no_doc_on_enum_helpers.
+
+Theorem C17_emitted_module_docs :
+  forall (order : schedule) (ptr : N) (mods : list (path * gmodule)) (st0 st : sstate)
+      (files : list (string * sexp)) (k : path) (gm : gmodule),
+    input_state ptr mods = Ok st0 ->
+    NoDup (map fst mods) ->
+    collision_free (st_reg st0) ->
+    pyxis_resolve order ptr mods = BOk st ->
+    write_all st = Ok files ->
+    In (k, gm) mods ->
+    k <> [] ->
+    exists (m : smodule) (f : sexp) (docs : list string) (items : list (list sexp)) 
+    (evs : list sexp),
+      In (k, m) (st_modules st) /\
+      In (out_path k, f) files /\
+      EmitMarkersNoDoc.file_docs f = Some docs /\
+      EmitMarkers.docs_as_declared (gm_attrs gm) docs /\
+      mapM (build_item (st_reg st) (S (Datatypes.length (reg_types (st_reg st)))))
+        (module_definitions (st_reg st) m) = Ok items /\
+      EmitReaders.file_items f =
+      Some
+        (SList [Atom "opaque"; Str (prologue_text m)]
+         :: List.concat items ++ evs ++ [SList [Atom "opaque"; Str (epilogue_text m)]]) /\
+      Datatypes.length evs = Datatypes.length (m_extern_values m) /\
+      Forall EmitMarkersNoDoc.undocumented evs.
+Proof. exact EmitMarkersNoDoc.C17_emitted_module_docs. Qed.
+Print Assumptions C17_emitted_module_docs.
